@@ -27,6 +27,7 @@ func checkC06(p *Prog, r *Report) {
 	ruleC06TemplateTag(p, a, r)
 	ruleC06Verbatim(p, a, r)
 	ruleC06Redispatch(p, a, r)
+	ruleC06Source(p, a, r)
 }
 
 // R-C06-EOF: the value the lexer's next() returns at the end of the input lies outside the domain of runes.
@@ -558,6 +559,120 @@ func ruleC06Verbatim(p *Prog, a *Anchors, r *Report) {
 			r.Bad("tokenize:caller "+p.FuncName(e.Site.Parent()), p.InstrPos(e.Site), "tokenize() is called outside the lexer's run loop")
 		}
 	}
+}
+
+// R-C06-SRC: what the lexer scans is the caller's / the loader's bytes, untouched. The value stored into the lexer's
+// input field is traced back through parameters (to every static call site), string/[]byte conversions and phis; it
+// must end in a parameter of an exported entry point or in the result of io.ReadAll/os.ReadFile on the loader's reader.
+func ruleC06Source(p *Prog, a *Anchors, r *Report) {
+	r.Begin("R-C06-SRC", "the text handed to the lexer is the source as given (FromString/FromBytes argument, or exactly what the loader's reader delivered): no function transforms it on the way", 3)
+	var sinks []*ssa.Store
+	p.EachInstr(func(f *ssa.Function, in ssa.Instruction) {
+		if st, ok := in.(*ssa.Store); ok && isFieldAddrOf(st.Addr, "lexer", "input") {
+			sinks = append(sinks, st)
+		}
+	})
+	if len(sinks) == 0 {
+		r.Unk("sink", "-", "anchor unresolved: no store to the lexer's input field")
+		return
+	}
+	type item struct {
+		v     ssa.Value
+		depth int
+	}
+	ends := map[string]string{} // key -> verdict text ("" = ok)
+	pos := map[string]string{}
+	seen := map[ssa.Value]bool{}
+	var work []item
+	for _, st := range sinks {
+		work = append(work, item{st.Val, 0})
+	}
+	for len(work) > 0 {
+		it := work[len(work)-1]
+		work = work[:len(work)-1]
+		v := it.v
+		if seen[v] || it.depth > 24 {
+			continue
+		}
+		seen[v] = true
+		switch x := v.(type) {
+		case *ssa.Convert:
+			work = append(work, item{x.X, it.depth + 1})
+		case *ssa.ChangeType:
+			work = append(work, item{x.X, it.depth + 1})
+		case *ssa.Phi:
+			for _, e := range x.Edges {
+				work = append(work, item{e, it.depth + 1})
+			}
+		case *ssa.UnOp:
+			if sv := localLoadValue(x); sv != nil {
+				work = append(work, item{sv, it.depth + 1})
+			} else {
+				k := p.FuncName(x.Parent()) + ":" + p.VN(x)
+				ends[k], pos[k] = "the lexer input is loaded from memory ("+p.VN(x)+") whose content this rule cannot follow", p.InstrPos(x)
+			}
+		case *ssa.Parameter:
+			f := x.Parent()
+			k := p.FuncName(f) + ":param " + x.Name()
+			if f.Object() != nil && f.Object().Exported() && f.Parent() == nil {
+				ends[k], pos[k] = "", p.Pos(f.Pos())
+				continue
+			}
+			node := p.CG.Nodes[f]
+			if node == nil || len(node.In) == 0 {
+				ends[k], pos[k] = "", p.Pos(f.Pos()) // unreferenced helper
+				continue
+			}
+			idx := indexOfParam(f, x)
+			for _, e := range node.In {
+				args := callArgs(e.Site.Common())
+				if e.Site.Common().StaticCallee() != f || idx >= len(args) {
+					kk := p.FuncName(f) + ":dynamic caller"
+					ends[kk], pos[kk] = "the source passes through a dynamic call into "+p.FuncName(f), p.InstrPos(e.Site)
+					continue
+				}
+				work = append(work, item{args[idx], it.depth + 1})
+			}
+		case *ssa.Extract:
+			c, ok := x.Tuple.(*ssa.Call)
+			name := ""
+			if ok && c.Common().StaticCallee() != nil {
+				name = p.extName(c.Common().StaticCallee())
+			}
+			k := p.FuncName(x.Parent()) + ":" + name
+			if x.Index == 0 && (name == "io.ReadAll" || name == "os.ReadFile" || name == "io/ioutil.ReadAll") {
+				ends[k], pos[k] = "", p.InstrPos(c)
+			} else {
+				ends[k], pos[k] = "the source is the result of "+name+": it is transformed between the loader and the lexer", p.InstrPos(x)
+			}
+		case *ssa.Call:
+			name := p.calleeName(x.Common())
+			k := p.FuncName(x.Parent()) + ":" + name
+			ends[k], pos[k] = "the source passes through "+name+" before it is scanned: literal text is no longer copied byte for byte (e.g. a stripped prefix, a normalised line ending)", p.InstrPos(x)
+		default:
+			k := p.FuncName(sinkParent(v)) + ":" + p.VN(v)
+			ends[k], pos[k] = "the lexer input is "+p.VN(v)+", not the source as given", "-"
+		}
+	}
+	keys := make([]string, 0, len(ends))
+	for k := range ends {
+		keys = append(keys, k)
+	}
+	sort.Strings(keys)
+	for _, k := range keys {
+		if ends[k] == "" {
+			r.OK(k, pos[k], "source enters here and reaches the lexer only through string/[]byte conversions")
+		} else {
+			r.Bad(k, pos[k], "%s", ends[k])
+		}
+	}
+}
+
+func sinkParent(v ssa.Value) *ssa.Function {
+	if in, ok := v.(ssa.Instruction); ok {
+		return in.Parent()
+	}
+	return v.Parent()
 }
 
 // R-C06-REDISPATCH: after the lexer enters or leaves verbatim mode, no rune is consumed before the
